@@ -15,7 +15,6 @@ use pallas_codec::minicbor;
 use pallas_primitives::{alonzo, babbage, byron, conway};
 use pallas_traverse::{Era, MultiEraTx};
 use rayon::prelude::*;
-use std::collections::BTreeMap;
 
 /// Path (array positions generalised to `*`, map keys kept when they are small
 /// unsigned integers) of the deepest node of `root` whose span contains `off`.
@@ -136,7 +135,6 @@ struct IsoStats {
     evaluations: u64,
     same: u64,
     skipped: Vec<String>,
-    header_diag: BTreeMap<String, u64>,
 }
 
 fn report_iso(ctx: &Ctx, st: &mut IsoStats, what: &str, era: &str, a: &Artefact, root: &Node, r: Result<Iso, mc_core::panics::PanicInfo>) {
@@ -147,6 +145,7 @@ fn report_iso(ctx: &Ctx, st: &mut IsoStats, what: &str, era: &str, a: &Artefact,
         Ok(Iso::Rejected(e)) => st.skipped.push(format!("{} ({what}, {era}): rejected by the typed decoder: {e}", a.name)),
         Ok(Iso::Differs { off, reencoded_len, got }) => {
             let path = path_at(root, off);
+            ctx.note(format!("not isomorphic: {} ({what}, {era}) at byte {off}, CBOR path {path}", a.name));
             ctx.violation(
                 format!("reencode-differs:{what}:{era}:{path}"),
                 format!(
@@ -162,7 +161,7 @@ fn report_iso(ctx: &Ctx, st: &mut IsoStats, what: &str, era: &str, a: &Artefact,
 }
 
 fn part_i(ctx: &Ctx) -> (IsoStats, Value) {
-    let mut st = IsoStats { evaluations: 0, same: 0, skipped: vec![], header_diag: BTreeMap::new() };
+    let mut st = IsoStats { evaluations: 0, same: 0, skipped: vec![] };
     let blocks = artefacts::load_hex("block");
     let chunks = artefacts::chunk_blocks();
     let txs = artefacts::load_hex("tx");
@@ -270,6 +269,7 @@ fn part_i(ctx: &Ctx) -> (IsoStats, Value) {
 
 pub fn run(ctx: Ctx) -> ! {
     let (iso, artefact_summary) = part_i(&ctx);
+    eprintln!("part (i) done at {:.1}s", ctx.elapsed());
     if iso.same < 1000 {
         mc_core::report::machinery_failure(&format!("C06(i): only {} artefacts re-encoded identically; the artefact set was not reached", iso.same));
     }
